@@ -753,6 +753,9 @@ pub fn run_def(def: &Def, cfg: &RunCfg, ctx: &mut Ctx) -> DefResult {
         _ => None,
     };
     let mut sub: u64 = 0;
+    // read-only / write-only definitions spend the whole budget on the half they have
+    let n_values = if ops.readable { cfg.n_values } else { cfg.n_values + cfg.n_buffers };
+    let n_buffers = if ops.writable { cfg.n_buffers } else { cfg.n_values + cfg.n_buffers };
 
     // ---- sizes -------------------------------------------------------------------------------
     ctx.bump("checks.packed_len_const");
@@ -770,7 +773,7 @@ pub fn run_def(def: &Def, cfg: &RunCfg, ctx: &mut Ctx) -> DefResult {
 
     // ---- values: pack (a), round trip (c), short destination (d) -----------------------------
     if ops.writable {
-        for _ in 0..cfg.n_values {
+        for _ in 0..n_values {
             sub += 1;
             res.evaluations += 1;
             let v = gen_value(&mut rng, top);
@@ -913,7 +916,7 @@ pub fn run_def(def: &Def, cfg: &RunCfg, ctx: &mut Ctx) -> DefResult {
                 .map(|(i, _)| i)
                 .collect();
             if !cands.is_empty() {
-                for _ in 0..(cfg.n_values / 10).max(8) {
+                for _ in 0..(n_values / 10).max(8) {
                     sub += 1;
                     ctx.bump("checks.pack_overrange");
                     let v = gen_value(&mut rng, top);
@@ -967,7 +970,7 @@ pub fn run_def(def: &Def, cfg: &RunCfg, ctx: &mut Ctx) -> DefResult {
 
     // ---- buffers: unpack (b), short buffers (d) ----------------------------------------------
     if ops.readable {
-        for _ in 0..cfg.n_buffers {
+        for _ in 0..n_buffers {
             sub += 1;
             res.evaluations += 1;
             let buf = gen_buffer(&mut rng, top, &regions, &sites, &mask);
@@ -1115,6 +1118,15 @@ pub fn finalize(def: &Def, res: &mut DefResult, done: &BTreeMap<usize, DefResult
     let rules: Vec<&'static str> = res.rules.keys().copied().collect();
     for rule in rules {
         let acc = &res.rules[rule];
+        // handling of short buffers does not depend on what is inside the type
+        if rule == "short-read" || rule == "short-write" || rule == "panic-short-read" || rule == "panic-short-write" {
+            let kind = match def.top {
+                Top::Enum(_) => "enum",
+                Top::Struct(_) => "struct",
+            };
+            res.labels.insert(rule, kind.to_string());
+            continue;
+        }
         let label = match def.top {
             Top::Enum(e) => {
                 if !e.implicit_class.is_empty() {
@@ -1144,7 +1156,8 @@ pub fn finalize(def: &Def, res: &mut DefResult, done: &BTreeMap<usize, DefResult
                 } else if let Some(t) = acc.enum_tags.iter().next() {
                     // explicit construct given by the check (undeclared-bit kinds, over-range probe)
                     t.clone()
-                } else if SPECIFIC_TAGS.contains(&def.risk) {
+                } else if fieldless(rule) && SPECIFIC_TAGS.contains(&def.risk) {
+                    // panics / spurious errors of a struct that holds a field known to be troublesome
                     def.risk.to_string()
                 } else if let Some(l) = inherit(rule, def.deps, done) {
                     l
